@@ -260,7 +260,7 @@ func (v *fnVC) tr(e Expr, env *Env) (T, types.Type) {
 		i, _ := v.trAs(x.I, env, types.Typ[types.Int])
 		switch u := aty.Underlying().(type) {
 		case *types.Slice:
-			return v.loadAt(v.elemAddr(app("sbase", a), app("+", app("soff", a), i)), u.Elem(), v.snapshot(env)), u.Elem()
+			return v.loadAt(v.elemAddr(app("sbase", a), v.ix(app("soff", a), i)), u.Elem(), v.snapshot(env)), u.Elem()
 		case *types.Basic:
 			return app("sat", a, i), types.Typ[types.Uint8]
 		case *types.Array:
@@ -508,7 +508,7 @@ func (v *fnVC) trAddr(e Expr, env *Env) (T, types.Type, bool) {
 		if sl, ok := aty.Underlying().(*types.Slice); ok {
 			i, _ := v.trAs(x.I, env, types.Typ[types.Int])
 			v.addrSpace = ""
-			return v.elemAddr(app("sbase", a), app("+", app("soff", a), i)), sl.Elem(), true
+			return v.elemAddr(app("sbase", a), v.ix(app("soff", a), i)), sl.Elem(), true
 		}
 	case *Select:
 		if addr, ty, ok := v.trAddr(x.X, env); ok {
@@ -757,6 +757,19 @@ func (v *fnVC) trCall(x *CallE, env *Env) (T, types.Type) {
 		b, _ := v.tr(x.Args[1], env)
 		v.P.add("inTree", inTreeDecl)
 		return app("inTree", a, app("root", b)), types.Typ[types.Bool]
+	case "inChain": // inChain(s, n): name n is in fieldSet s or in one of its ancestors, in the selected heap state
+		s, _ := v.tr(x.Args[0], env)
+		n, _ := v.tr(x.Args[1], env)
+		pkg := v.e.typesPkg(modPrefix)
+		fsT := pkg.Scope().Lookup("fieldSet").Type()
+		fsN, fsSt, _ := v.isModStruct(fsT)
+		_, mty := findField(fsSt, "fields")
+		md, _, _, _ := v.mapMems(mty.Underlying().(*types.Map))
+		mi := v.P.memName("Int")
+		v.memSrt[mi] = "Int"
+		ff, fp := v.P.fieldFn(fsN, "fields"), v.P.fieldFn(fsN, "parent")
+		v.P.add("inChain", fmt.Sprintf("(declare-fun inChain ((Array Int (Array Str Bool)) (Array Int Int) Int Str) Bool)\n(assert (forall ((D (Array Int (Array Str Bool))) (M (Array Int Int)) (s Int) (n Str)) (! (= (inChain D M s n) (and (not (= s 0)) (or (and (not (= (select M (%[1]s s)) 0)) (select (select D (select M (%[1]s s))) n)) (inChain D M (select M (%[2]s s)) n)))) :pattern ((inChain D M s n)))))\n(assert (forall ((D (Array Int (Array Str Bool))) (M (Array Int Int)) (n Str)) (! (not (inChain D M 0 n)) :pattern ((inChain D M 0 n)))))", ff, fp))
+		return app("inChain", v.snapMem(env, md), v.snapMem(env, mi), s, n), types.Typ[types.Bool]
 	case "isTyped": // isTyped(e): e is nil or its dynamic type implements ucfg.Error
 		a, _ := v.tr(x.Args[0], env)
 		return or(eq(a, "(mkI 0 0)"), app("impl_ucfg_Error", app("itag", a))), types.Typ[types.Bool]
